@@ -708,7 +708,9 @@ pub fn gen_content(rng: &mut Rng, honest: bool, kinds: &[PkKind]) -> Content {
 
 pub fn gen_rule(rng: &mut Rng) -> Rule {
     let i = rng.byte();
-    match rng.below(46) {
+    match rng.below(48) {
+        46 => Rule::PkUncompressed,
+        47 => Rule::InnerNonCanonList,
         0 | 1 => Rule::SwapPairs(i),
         2 | 3 => Rule::DupPair(i),
         4 => Rule::DupKeyOtherValue(i),
